@@ -704,7 +704,7 @@ class Engine:
         """A model of the path condition in which every non-strict order fact holds strictly whenever the path allows it
         (used for the float64 validation run: a tie exactly on a branch boundary is where float rounding flips a branch)."""
         strict, margin = [], []
-        mu = z3.RealVal("1/1000000")
+        mu = z3.RealVal("1/100")  # above the tolerance of the concrete comparisons (1e-7 + 1e-6 |x|) for |x| <= 1000
         for key, mask in self.facts.items():
             t = to_z3(dict(key))
             if mask in (3, 6):
